@@ -360,7 +360,15 @@ func build(c caseT, w *world) (err error) {
 	w.built = b
 	// the same defaults, configured the way Go programs do: typed slices instead of []interface{} (per slice, at random)
 	w.retyped = retypeDefaults(c.Desc, b, c.Salt)
-	all := len(c.Appended) == 0 && len(c.Initial) == len(c.Desc.Types)
+	if c.Mut != nil {
+		// MutX is not gq's (thunked) object but one configured through its AddFieldConfig history
+		mine, e := buildMut(c, b)
+		if e != nil {
+			return e
+		}
+		b.Types["MutX"], b.Objects["MutX"] = mine, mine
+	}
+	all := len(c.Appended) == 0 && len(c.Initial) == len(c.Desc.Types) && c.Mut == nil
 	if all {
 		inOrder := true
 		for i, t := range c.Desc.Types {
@@ -707,6 +715,17 @@ func main() {
 				if f.Name == "__typename" || (t.Name == c.Desc.Query && (f.Name == "__type" || f.Name == "__schema")) {
 					run.Tag("user-field-named-like-meta-field:" + f.Name)
 				}
+			}
+		}
+		if c.Mut != nil {
+			run.Tag(fmt.Sprintf("AddFieldConfig-history:fieldsFirst=%d", c.Mut.FieldsFirst))
+			if len(c.Mut.Added) > 0 {
+				run.Tag("AddFieldConfig-history:new-field-added")
+			}
+		}
+		for _, n := range c.Scrubbed {
+			if !inMap[n] {
+				run.Tag("built-in-scalar-absent-from-type-map:" + n)
 			}
 		}
 		if w.retyped > 0 {
